@@ -18,6 +18,7 @@ import ast
 from ..astutil import call_name, calls, dotted, names_in, param_names, stmts, walk_local
 from ..cfg import CFG
 from ..core import AnalysisError, Mutant
+from ..exprnorm import same_expr
 
 EXPLANATION = (
     "Classification of every pointer-array subscript in kmertable.pyx (lowered, with C types): loop "
@@ -282,12 +283,39 @@ def run(ctx):
     ctx.ob("R1.scalar-kmer-two-sided", KT, "KmerTable.from_positions", "kmer < 0 or kmer >= alph_length", two,
            "dictionary keys are caller data and need a two-sided check", fp.lineno)
     # validators themselves
+    def own_test(f):
+        for st in ast.walk(f):
+            if isinstance(st, ast.If) and any(isinstance(b, ast.Raise) and "AlphabetError" in ast.unparse(b) for b in st.body):
+                parts = st.test.values if isinstance(st.test, ast.BoolOp) and isinstance(st.test.op, ast.Or) else [st.test]
+                vars_ = set()
+                lo = hi = None
+                for p_ in parts:
+                    if isinstance(p_, ast.Call) and call_name(p_) == "np.any" and len(p_.args) == 1 and isinstance(p_.args[0], ast.Compare):
+                        c_ = p_.args[0]
+                        if same_expr(c_.comparators[0], "0") and isinstance(c_.ops[0], ast.Lt):
+                            lo = ast.unparse(c_.left)
+                        if isinstance(c_.ops[0], ast.GtE) and same_expr(c_.comparators[0], "len(kmer_alphabet)"):
+                            hi = ast.unparse(c_.left)
+                if lo is not None and lo == hi:
+                    return lo
+        return None
+
+    sound = {}
     for v in sorted(VALIDATORS):
         f = s.func(v)
-        t = ast.unparse(f)
-        ctx.ob("R1.validator-sound", KT, v, "np.any(kmers < 0) or np.any(kmers >= len(kmer_alphabet))",
-               "np.any(kmers < 0) or np.any(kmers >= len(kmer_alphabet))" in t and "raise AlphabetError" in t,
-               "the validator must reject on both sides (>= for the upper bound)", f.lineno)
+        sound[v] = own_test(f) is not None
+    for v in sorted(VALIDATORS):
+        f = s.func(v)
+        ok = sound[v]
+        if not ok:
+            # delegation: every element of the collection goes through a sound validator with the same alphabet
+            for lp in ast.walk(f):
+                if isinstance(lp, ast.For) and isinstance(lp.target, ast.Name) and same_expr(lp.iter, param_names(f)[0]):
+                    ok = any(isinstance(c_, ast.Call) and call_name(c_) in sound and sound[call_name(c_)] and len(c_.args) == 2
+                             and same_expr(c_.args[0], lp.target.id) and same_expr(c_.args[1], param_names(f)[1])
+                             for b_ in lp.body for c_ in ast.walk(b_)) and not any(isinstance(x, (ast.Break, ast.Continue, ast.Return)) for x in ast.walk(lp))
+        ctx.ob("R1.validator-sound", KT, v, "np.any(kmers < 0) or np.any(kmers >= len(kmer_alphabet))", ok,
+               "the validator must reject on both sides (>= for the upper bound), itself or by handing every array to one that does", f.lineno)
 
     # ---------------- R2 siblings ---------------------------------------------
     pub = {}
